@@ -41,6 +41,10 @@ static Outcome runCase(const KV& c)
     o.nontrivial = threads >= 2;
     const char* root      = getenv("VERIF_BUILD_TSAN");
     const std::string exe = std::string(root ? root : "/verif/build/tsan") + "/c11_tsan_driver";
+    const std::string schedLib = std::string(root ? root : "/verif/build/tsan") + "/libverif_sched.so";
+    const std::string supp     = std::string(root ? root : "/verif/build/tsan") + "/tsan_suppressions.txt";
+    const uint64_t sched_seed  = c.has("sched_seed") ? c.getU("sched_seed") : 0;
+    o.cls(sched_seed ? "arrival_order_perturbed" : "arrival_order_unperturbed");
     const std::string cf = tmpBase() + ".case", lf = tmpBase() + ".log";
     c.save(cf);
     fflush(nullptr);
@@ -51,9 +55,11 @@ static Outcome runCase(const KV& c)
             dup2(fd, 1);
             dup2(fd, 2);
         }
-        setenv("OMP_TOOL_LIBRARIES", "/usr/lib/llvm-14/lib/libarcher.so", 1);
+        // Archer, wrapped by the arrival-order perturbation tool (sched_tool.cpp); sched_seed=0: no perturbation
+        setenv("OMP_TOOL_LIBRARIES", schedLib.c_str(), 1);
+        setenv("VERIF_SCHED_SEED", std::to_string(sched_seed).c_str(), 1);
         setenv("ARCHER_OPTIONS", "verbose=1", 1);
-        setenv("TSAN_OPTIONS", "ignore_noninstrumented_modules=1:halt_on_error=0:exitcode=66:report_signal_unsafe=0", 1);
+        setenv("TSAN_OPTIONS", ("suppressions=" + supp + ":halt_on_error=0:exitcode=66:report_signal_unsafe=0").c_str(), 1);
         setenv("OMP_WAIT_POLICY", "PASSIVE", 1);
         setenv("KMP_BLOCKTIME", "0", 1);
         unsetenv("OMP_NUM_THREADS");
@@ -82,6 +88,10 @@ static Outcome runCase(const KV& c)
     }
     if (log.find("Archer detected OpenMP application with TSan") == std::string::npos) {
         o.fail("harness_archer_missing", "the Archer OMPT tool did not attach (no OpenMP happens-before): " + log.substr(0, 300));
+        return o;
+    }
+    if (log.find("verif_sched: wrapping Archer") == std::string::npos) {
+        o.fail("harness_sched_tool_missing", "the arrival-order tool did not attach: " + log.substr(0, 300));
         return o;
     }
     size_t w = log.find("WARNING: ThreadSanitizer");
@@ -127,6 +137,8 @@ static KV genCase()
 {
     KV c = genCase11(true);
     c.putI("threads", rpick({2, 3, 4, 5, 7, 8, 16, 33}));
+    // three quarters of the cases with perturbed arrival order (who wins a `single`, a dynamic chunk, a nowait successor)
+    c.putU("sched_seed", rint(0, 3) == 0 ? 0 : (rseed() | 1));
     return c;
 }
 
